@@ -96,16 +96,21 @@ Chain(evs, i, count, r, acc) ==      \* acc = [sent, refills]
              acc2 == [sent |-> acc.sent + (IF b.send THEN 1 ELSE 0), refills |-> acc.refills + (IF secs > 0 THEN 1 ELSE 0)] IN
          IF e.before = count /\ e.after = b.count /\ (IF b.send THEN e.action = "send" ELSE e.action \in {"drop", "slip"})
          THEN Chain(evs, i + 1, b.count, r, acc2) ELSE [ok |-> FALSE, sent |-> 0, refills |-> 0]
+\* r.primed = number of requests one thread sent on the stream before the burst (their events come first in r.events and are
+\* not among the n requests of the burst; every bucket's last refill was then moved 1.2 s into the past)
 BurstOk(r) ==
   LET c == Chain(r.events, 1, 0, r, [sent |-> 0, refills |-> 0])
-      nev == Cardinality({i \in 1..Len(r.events) : r.events[i].ev = "Rrl"}) IN
+      nev == Cardinality({i \in 1..Len(r.events) : r.events[i].ev = "Rrl"})
+      psent == Min(r.primed, r.rate * r.window) IN
   /\ c.ok /\ r.panics = 0
-  /\ nev = r.n                                       \* one bucket update per request: none lost, none doubled
-  /\ c.sent = r.full /\ r.full + r.limited = r.n
+  /\ nev = r.n + r.primed                            \* one bucket update per request: none lost, none doubled
+  /\ c.sent = r.full + psent /\ r.full + r.limited = r.n
   /\ (c.refills = 0 => r.full = Min(r.n, r.rate * r.window))
+  \* a primed burst that was over within 700 ms (its refill leaves 0.2 s on the clock) sees exactly the one refill that had come due, whoever gets there first
+  /\ (r.primed > 0 /\ r.wall_ms < 700 => c.refills = 1)
   \* a burst that was over within 900 ms (thread start to last join) cannot have seen a whole second pass on the stream's
   \* own clock, which starts with its first response: no refill, however old the bucket it took over was
-  /\ (r.wall_ms < 900 => c.refills = 0)
+  /\ (r.primed = 0 /\ r.wall_ms < 900 => c.refills = 0)
 
 VARIABLES l, cfg, shift, table, names, skipping, bad, nbad
 vars == <<l, cfg, shift, table, names, skipping, bad, nbad>>
